@@ -106,6 +106,7 @@ pub fn spec_enc(t: &StructureTag, rng: &mut Rng, vary: bool) -> Vec<u8> {
 }
 
 pub fn parse_outcome(bs: &[u8]) -> String {
+    crate::out::mark(&format!("ber.parse {}", hex(bs)));
     match guarded(|| match parse_tag(bs) {
         Ok((rest, t)) => format!("ok {} rest={}", tlv(&t), rest.len()),
         Err(e) if e.is_incomplete() => String::from("incomplete"),
